@@ -25,12 +25,15 @@ Inductive case :=
 (* a tampered encoding [b] of the certificate [orig], which a CA in a pool holding only that CA issued.
    form 0: b went through UnmarshalCertificateFromPEM under the banner of orig's version;
    form 1: b went through Recombine(version of orig, b, pk, curve).
-   dec = what the entry point returned; accepted = CAPool.VerifyCertificate(now, dec) succeeded (now inside both
-   validity windows, empty blocklist); blk_orig / blk_twin = with the fingerprint of orig / of orig carrying the twin
+   dec = what the entry point returned; accepted = CAPool.VerifyCertificate(now, dec) and then VerifyCachedCertificate
+   succeeded on a FRESH pool (now inside both validity windows, empty blocklist); acc_leaf = the same on the one
+   long-lived pool of this leaf, which has verified the genuine certificate and every earlier tampered encoding of it;
+   acc_ca = the same on the CA's shared pool, right after genuine certificates of other leaves of that CA;
+   blk_orig / blk_twin = with the fingerprint of orig / of orig carrying the twin
    signature on the blocklist VerifyCertificate and VerifyCachedCertificate both refuse dec (true also when there is
-   nothing to check: not accepted, or no twin because the curve is not P-256). *)
+   nothing to check: accepted on no pool, or no twin because the curve is not P-256). *)
 | CTamper (orig : anycert) (form : N) (pk : list N) (curve : N) (b : list N) (dec : option anycert)
-          (accepted blk_orig blk_twin : bool).
+          (accepted acc_leaf acc_ca blk_orig blk_twin : bool).
 
 Definition model_decode (orig : anycert) (form : N) (pk : list N) (curve : N) (b : list N) : option anycert :=
   match form with
@@ -44,9 +47,11 @@ Definition model_decode (orig : anycert) (form : N) (pk : list N) (curve : N) (b
 Definition check_case (c : case) : list N :=
   match c with
   | CSwap sig res => flag 1 (option_eqb nlist_eqb (twin sig) res)
-  | CTamper orig form pk curve b dec accepted blk_orig blk_twin =>
+  | CTamper orig form pk curve b dec accepted acc_leaf acc_ca blk_orig blk_twin =>
       flag 1 (option_eqb any_eqb (model_decode orig form pk curve b) dec) ++
-      (if accepted then
+      (* C02_history_independent on the implementation: the verdict does not depend on what the pool verified before *)
+      flag 2 (Bool.eqb accepted acc_leaf && Bool.eqb accepted acc_ca) ++
+      (if accepted || acc_leaf || acc_ca then
          match dec with
          | None => [2]
          | Some d =>
